@@ -6,6 +6,7 @@ import Driver.C06
 import Driver.C08
 import Driver.C11
 import Driver.C12
+import Driver.C19
 open GqlVerif GqlVerif.Driver
 
 /-- dispatch one request; unknown op → `unsupported` -/
@@ -19,6 +20,8 @@ def dispatch (op : String) (args : Json) : Option Json :=
   | "c02.render" => some (c02render args)
   | "c11.accept" => some (c11accept args)
   | "c12.run" => some (c12run args)
+  | "c19.run" => some (c19run args)
+  | "c19.decode" => some (c19decode args)
   | "c05.lex" => some (c05lex args)
   | "c05.limits" => some (c05limits args)
   | _ => none
